@@ -1131,9 +1131,9 @@ def r19_pattern_text_validated(a, tier):
     rep = RuleReport(
         'C08.R19',
         'a regular expression written in a grammar is validated where its text is produced: the model constructor (Pattern.__post_init__) answers an '
-        'invalid expression with ValueError, which is not a TatSu error, so the grammar actions that hand on pattern text - regex (one /.../) and '
-        'regexes (the concatenation of several parts: each part can be valid and the whole not, `/a{2/ + /,1}/`) - pass _validate_pattern, which '
-        'raises FailedSemantics, on every path to a normal exit; deprecated_regex reaches one of them [paths]',
+        'invalid expression with ValueError, which is not a TatSu error, so the grammar actions that hand on pattern text and are live (a rule of that '
+        'name exists in _tatsu.ebnf: regex, deprecated_regex) pass _validate_pattern, which raises FailedSemantics, on every path to a normal exit, '
+        'directly or through another such action [paths]',
         floor=2,
     )
     gs = a.p.cls('tatsu.peg.semantics.GrammarSemantics')
@@ -1146,9 +1146,14 @@ def r19_pattern_text_validated(a, tier):
     if not (raises_fs and compiles):
         rep.fail(vp.qualname, 'validator', '_validate_pattern no longer compiles the text and raises FailedSemantics for an invalid expression', vp.loc)
     validating = {'_validate_pattern'}
+    # an action runs only for a rule of that name: the rules of the grammar file decide which of the pattern-producing actions are live
+    ebnf_rules = set(re.findall(r'^([A-Za-z_][A-Za-z_0-9]*)(?:\[[^\]]*\])?\s*:', (a.p.root / 'tatsu' / '_tatsu.ebnf').read_text(encoding='utf-8'), re.M))
     for name in ('regex', 'regexes', 'deprecated_regex'):
         m = gs.methods.get(name)
         if m is None:
+            continue
+        if name not in ebnf_rules:
+            rep.add({'action': m.qualname, 'live': False, 'note': f'no rule `{name}` in _tatsu.ebnf: the action is never called'})
             continue
 
         def flagger(ex, f, call, state, m=m):
